@@ -2061,5 +2061,9 @@ check_host(const char *domain)
 	 * during SPF evaluation */
 	unsigned int queries = 0;
 
+	/* the mechanism that matched is reported in the Received-SPF header:
+	 * forget the one of the previous evaluation on this connection */
+	xmitstat.spfmechanism = NULL;
+
 	return spflookup(domain, &queries);
 }
